@@ -278,6 +278,9 @@ func c16Pairing(r *core.Report) {
 				return true
 			})
 		}
+		if c, ok := core.Unparen(ra[i].arg).(*ast.CallExpr); ok && def == nil {
+			def = c // the reader is constructed in the append itself
+		}
 		if def == nil {
 			r.Undecided(rule, k+"-size-matches", pos(r, ra[i].n.Ast), "definition of the appended reader not found")
 			continue
@@ -571,6 +574,9 @@ func c16PrefixSums(r *core.Report) {
 		}
 		return true
 	})
+	if rsFound == nil && c16PrefixRecurrence(r, rule, f, sizes) {
+		return
+	}
 	if rsFound == nil || store == nil || add == nil {
 		r.Undecided(rule, f.Key+"#prefix-sum", posP(r, f.Pos()), "the offsets[i] = total; total += size loop over sizes was not recognised")
 		return
@@ -604,6 +610,82 @@ func c16PrefixSums(r *core.Report) {
 		return true
 	})
 	r.Check(zero, rule, f.Key+"#starts-at-zero", posP(r, f.Pos()), "the running total starts at 0", "the running total does not start at 0")
+}
+
+// c16PrefixRecurrence recognises the other way of writing the prefix sums:
+//   offsets := make([]T, len(sizes));  for i := 1; i < len(sizes); i++ { offsets[i] = offsets[i-1] + sizes[i-1] }
+// offsets[0] keeps the zero value make gave it, every later offset adds the size of the segment before it.
+func c16PrefixRecurrence(r *core.Report, rule string, f *core.Func, sizes *types.Var) bool {
+	info := f.Pkg.TypesInfo
+	var loop *ast.ForStmt
+	ast.Inspect(f.Body, func(n ast.Node) bool {
+		if fs, ok := n.(*ast.ForStmt); ok && loop == nil {
+			loop = fs
+		}
+		return true
+	})
+	if loop == nil || loop.Init == nil || loop.Cond == nil || loop.Post == nil || len(loop.Body.List) != 1 {
+		return false
+	}
+	init, ok := loop.Init.(*ast.AssignStmt)
+	if !ok || len(init.Lhs) != 1 || len(init.Rhs) != 1 {
+		return false
+	}
+	iv := core.ObjOf(info, init.Lhs[0])
+	start, okS := core.ConstInt(info, init.Rhs[0])
+	post, okP := loop.Post.(*ast.IncDecStmt)
+	as, okA := loop.Body.List[0].(*ast.AssignStmt)
+	if iv == nil || !okS || !okP || post.Tok != token.INC || core.ObjOf(info, post.X) != iv || !okA || as.Tok != token.ASSIGN || len(as.Lhs) != 1 || len(as.Rhs) != 1 {
+		return false
+	}
+	lhs, ok := core.Unparen(as.Lhs[0]).(*ast.IndexExpr)
+	if !ok || core.ObjOf(info, lhs.Index) != iv {
+		return false
+	}
+	offs := core.ObjOf(info, lhs.X)
+	sum, ok := core.Unparen(as.Rhs[0]).(*ast.BinaryExpr)
+	if !ok || sum.Op != token.ADD || offs == nil {
+		return false
+	}
+	// operands: offsets[i-1] and sizes[i-1]
+	prevOf := func(e ast.Expr, base types.Object) bool {
+		ix, ok := stripConvs(info, e).(*ast.IndexExpr)
+		if !ok || core.ObjOf(info, ix.X) != base {
+			return false
+		}
+		be, ok := core.Unparen(ix.Index).(*ast.BinaryExpr)
+		if !ok || be.Op != token.SUB || core.ObjOf(info, be.X) != iv {
+			return false
+		}
+		v, ok := core.ConstInt(info, be.Y)
+		return ok && v == 1
+	}
+	rec := (prevOf(sum.X, offs) && prevOf(sum.Y, sizes)) || (prevOf(sum.Y, offs) && prevOf(sum.X, sizes))
+	// bound: i < len(sizes) or i < len(offsets)
+	bound := false
+	if be, ok := core.Unparen(loop.Cond).(*ast.BinaryExpr); ok && be.Op == token.LSS && core.ObjOf(info, be.X) == iv {
+		if lc, ok := core.Unparen(be.Y).(*ast.CallExpr); ok && core.BuiltinName(info, lc) == "len" && len(lc.Args) == 1 {
+			if o := core.ObjOf(info, lc.Args[0]); o == types.Object(sizes) || o == offs {
+				bound = true
+			}
+		}
+	}
+	// offsets := make([]T, len(sizes)): zero-initialised, as long as sizes
+	zeroInit := false
+	if d := singleDef(f, offs); d != nil {
+		if mc, ok := core.Unparen(d).(*ast.CallExpr); ok && core.BuiltinName(info, mc) == "make" && len(mc.Args) == 2 {
+			if lc, ok := core.Unparen(mc.Args[1]).(*ast.CallExpr); ok && core.BuiltinName(info, lc) == "len" && len(lc.Args) == 1 && core.ObjOf(info, lc.Args[0]) == types.Object(sizes) {
+				zeroInit = true
+			}
+		}
+	}
+	if !rec {
+		return false
+	}
+	r.Check(bound && start == 1, rule, f.Key+"#store-before-add", pos(r, as), "offsets[i] = offsets[i-1] + sizes[i-1] for every i from 1 to the last segment: the sum of the sizes before segment i",
+		"the recurrence offsets[i] = offsets[i-1] + sizes[i-1] does not run over every segment from the second to the last")
+	r.Check(zeroInit, rule, f.Key+"#starts-at-zero", posP(r, f.Pos()), "offsets[0] keeps the zero value of make([]T, len(sizes))", "offsets[0] is not known to be 0")
+	return true
 }
 
 func c16ReadAtEOF(r *core.Report) {
@@ -664,12 +746,12 @@ func c16ReadAtEOF(r *core.Report) {
 			nSet++
 			last, eof := false, false
 			for _, fc := range g.FactsAt(n) {
-				if fc.Tag != nil || !fc.Truth {
+				if fc.Tag != nil {
 					continue
 				}
 				be, ok := core.Unparen(fc.Expr).(*ast.BinaryExpr)
-				if !ok || be.Op != token.EQL {
-					continue
+				if !ok || !((be.Op == token.EQL && fc.Truth) || (be.Op == token.NEQ && !fc.Truth)) {
+					continue // the equality is known to hold: `a == b` taken, or `a != b` refused
 				}
 				if isEOF(be.X) || isEOF(be.Y) {
 					eof = true
